@@ -756,3 +756,158 @@ Example ex_upload_failure :
   let prog := compile all_fixed 1 [mkfp false true [true; false; true]] in
   has_fail prog = true /\ c_result (call all_fixed prog (mksc false (AOk false) false (TRespond None RespRead) false)) = RFail.
 Proof. vm_compute. split; reflexivity. Qed.
+
+(* ====================== the error VALUE a source fails with ====================== *)
+Lemma has_fail_app a b : has_fail (a ++ b) = has_fail a || has_fail b.
+Proof. unfold has_fail. apply existsb_app. Qed.
+
+Lemma has_fail_copy_ops chunks : existsb negb chunks = true -> has_fail (copy_ops chunks) = true.
+Proof.
+  induction chunks as [|c r IH]; cbn [existsb]; intros H; [discriminate|].
+  unfold copy_ops. cbn [flat_map]. fold (copy_ops r). rewrite has_fail_app.
+  destruct c; cbn [negb orb] in H.
+  - rewrite (IH H). apply orb_true_r.
+  - reflexivity.
+Qed.
+
+(* io.Copy: the first Read that does not return nil decides; only the bare io.EOF is the end *)
+Lemma lower_chunks_failure wd l :
+  is_failure (first_stop l) = true -> existsb negb (lower_chunks_with is_eof wd l) = true.
+Proof.
+  induction l as [|r rest IH]; cbn [first_stop lower_chunks_with]; intros H; [discriminate|].
+  destruct r; cbn [is_eof is_failure] in *.
+  - cbn [existsb negb orb]. now apply IH.
+  - discriminate.
+  - destruct wd; reflexivity.
+  - destruct wd; reflexivity.
+Qed.
+
+Lemma lower_chunks_no_failure wd l :
+  is_failure (first_stop l) = false -> existsb negb (lower_chunks_with is_eof wd l) = false.
+Proof.
+  induction l as [|r rest IH]; cbn [first_stop lower_chunks_with]; intros H; [reflexivity|].
+  destruct r; cbn [is_eof is_failure] in *.
+  - cbn [existsb negb orb]. now apply IH.
+  - destruct wd; reflexivity.
+  - discriminate.
+  - discriminate.
+Qed.
+
+Lemma file_ops_lower_fails f : src_fails_visibly f = true -> has_fail (file_ops (lower f)) = true.
+Proof.
+  unfold src_fails_visibly, sniff_swallowed, src_fails, src_reads, lower, lower_with.
+  destruct f as [decl sn chunks wd once]; cbn [sf_declared sf_sniff sf_chunks sf_with_data sf_once].
+  intros Hv. apply andb_prop in Hv. destruct Hv as [H Hs]. revert H.
+  destruct decl.
+  - cbn [app]. intros H. unfold file_ops. cbn [fp_declared fp_chunks app].
+    change (OWrite Abort :: copy_ops (lower_chunks_with is_eof wd chunks) ++ [OEndCopy])
+      with ([OWrite Abort] ++ copy_ops (lower_chunks_with is_eof wd chunks) ++ [OEndCopy]).
+    rewrite !has_fail_app. rewrite (has_fail_copy_ops _ (lower_chunks_failure wd chunks H)).
+    cbn. reflexivity.
+  - cbn [app first_stop]. destruct sn; cbn [is_failure]; intros H.
+    + unfold file_ops. cbn [fp_declared fp_sniff_ok fp_chunks].
+      rewrite !has_fail_app. rewrite (has_fail_copy_ops _ (lower_chunks_failure wd chunks H)).
+      cbn. reflexivity.
+    + discriminate.
+    + destruct once; [discriminate Hs|]. reflexivity.
+    + reflexivity.
+Qed.
+
+Lemma has_fail_files files :
+  existsb src_fails_visibly files = true -> has_fail (flat_map file_ops (map lower files)) = true.
+Proof.
+  induction files as [|f r IH]; cbn [existsb map flat_map]; intros H; [discriminate|].
+  rewrite has_fail_app. destruct (src_fails_visibly f) eqn:E.
+  - now rewrite (file_ops_lower_fails f E).
+  - cbn [orb] in H. rewrite (IH H). apply orb_true_r.
+Qed.
+
+Lemma has_fail_compile fx nv files :
+  existsb src_fails_visibly files = true -> has_fail (compile fx nv (map lower files)) = true.
+Proof.
+  intros H. unfold compile. rewrite !has_fail_app. rewrite (has_fail_files files H).
+  rewrite !orb_true_r. reflexivity.
+Qed.
+
+(* whatever value a source fails with, at the sniff or at any Read of the copy, with or without bytes next to the
+   error: the call is not a success when the body is consumed to its end *)
+Theorem upload_failure_any_error_value fx nv files sc :
+  existsb src_fails_visibly files = true -> sc_param_err sc = false ->
+  (match sc_auth sc with
+   | AOk true | AFail true => True
+   | _ => sc_debug sc = true \/ exists r, sc_transport sc = TRespond None r
+   end) ->
+  c_result (call fx (compile fx nv (map lower files)) sc) = RFail.
+Proof.
+  intros H Hp Hc. apply upload_failure_is_error; [now apply has_fail_compile|assumption|assumption].
+Qed.
+
+(* a source that ends (io.EOF, early or not) without any failing Read is no failing source for the model either *)
+Theorem early_end_is_no_failure f : src_fails f = false -> fp_fails (lower f) = false.
+Proof.
+  unfold src_fails, src_reads, lower, lower_with, fp_fails.
+  destruct f as [decl sn chunks wd once]; cbn [sf_declared sf_sniff sf_chunks sf_with_data sf_once]. destruct decl.
+  - cbn [app fp_declared fp_sniff_ok fp_chunks negb andb orb]. apply lower_chunks_no_failure.
+  - cbn [app first_stop]. destruct sn; cbn [is_failure]; intros H; cbn [fp_declared fp_sniff_ok fp_chunks negb andb orb].
+    + now apply lower_chunks_no_failure.
+    + destruct once; reflexivity.
+    + discriminate.
+    + discriminate.
+Qed.
+
+(* F-C12-6: the restriction to visible failures is needed. A source that reports io.ErrUnexpectedEOF once inside the sniffing window
+   and io.EOF afterwards is a failing source, its body is consumed to the end, and the call succeeds *)
+Theorem upload_failure_refuted_for_truncation_once_inside_sniff_window : exists f sc,
+  src_fails f = true /\ sniff_swallowed f = true /\ sc_param_err sc = false /\
+  (exists r, sc_transport sc = TRespond None r) /\
+  c_result (call all_fixed (compile all_fixed 0 (map lower [f])) sc) = ROk.
+Proof.
+  exists (mksf false RdTrunc [RdOk; RdOk] false true), (mksc false ANone false (TRespond None RespRead) false).
+  vm_compute. repeat split; try reflexivity. now exists RespRead.
+Qed.
+
+(* the test of the sniffing ReadFull must not be applied to the copy: with a truncated stream taken for its end a
+   source failing with io.ErrUnexpectedEOF in the middle of the copy is answered as a success *)
+Theorem upload_failure_refuted_if_truncation_is_benign : exists files sc,
+  existsb src_fails_visibly files = true /\ sc_param_err sc = false /\
+  (exists r, sc_transport sc = TRespond None r) /\
+  c_result (call all_fixed (compile all_fixed 0 (map lower_trunc_benign files)) sc) = ROk /\
+  c_result (call all_fixed (compile all_fixed 0 (map lower files)) sc) = RFail.
+Proof.
+  exists [mksf true RdOk [RdOk; RdTrunc; RdOk] false false], (mksc false ANone false (TRespond None RespRead) false).
+  vm_compute. repeat split; try reflexivity. now exists RespRead.
+Qed.
+
+(* ====================== (ii') the order of Submit's deferred calls ====================== *)
+Theorem epilogue_drains keepalive saw :
+  x_closes (after_exchange keepalive saw) = 1 /\
+  (keepalive = true -> x_ended (after_exchange keepalive saw) = true) /\
+  (keepalive = false -> x_ended (after_exchange keepalive saw) = saw).
+Proof. destruct keepalive, saw; vm_compute; repeat split; congruence. Qed.
+
+Lemma conns_used_all_kept : forall kept idle, forallb (fun b => b) kept = true ->
+  conns_used idle kept = match kept with [] => 0 | _ => if idle then 0 else 1 end.
+Proof.
+  induction kept as [|k r IH]; intros idle H; [reflexivity|].
+  cbn [forallb] in H. apply andb_prop in H. destruct H as [Hk Hr]. subst k.
+  cbn [conns_used]. rewrite (IH true Hr). destruct r; destruct idle; reflexivity.
+Qed.
+
+(* with connection reuse enabled, any number of sequential calls on one Runtime dial one connection, whatever
+   their readers left unread *)
+Theorem reuse_one_connection : forall readers, readers <> [] ->
+  conns_of_history submit_epilogue true readers = 1.
+Proof.
+  intros readers Hne. unfold conns_of_history. rewrite conns_used_all_kept.
+  - destruct readers; [congruence|reflexivity].
+  - induction readers as [|s r IH]; [reflexivity|]. cbn [map forallb]. destruct s; cbn.
+    + destruct r; [reflexivity|]. apply IH. discriminate.
+    + destruct r; [reflexivity|]. apply IH. discriminate.
+Qed.
+
+(* the order matters: cancel before the Close and every call whose reader left something unread costs its connection *)
+Theorem reuse_refuted_if_cancel_runs_first :
+  conns_of_history wrong_epilogue true [false; false; false] = 3 /\
+  x_closes (run_epilogue true wrong_epilogue false) = 1 /\
+  x_ended (run_epilogue true wrong_epilogue false) = false.
+Proof. vm_compute. repeat split; reflexivity. Qed.
